@@ -21,6 +21,7 @@
 package zapcore
 
 import (
+	"math"
 	"sync/atomic"
 	"time"
 )
@@ -38,7 +39,16 @@ type counter struct {
 type counters [_numLevels][_countersPerLevel]counter
 
 func newCounters() *counters {
-	return &counters{}
+	cs := &counters{}
+	// No window is open yet: the first entry of every counter must start one,
+	// whatever its timestamp. A zero resetAt would act as a window ending at
+	// the Unix epoch and swallow all entries stamped before it.
+	for i := range cs {
+		for j := range cs[i] {
+			cs[i][j].resetAt.Store(math.MinInt64)
+		}
+	}
+	return cs
 }
 
 func (cs *counters) get(lvl Level, key string) *counter {
